@@ -151,6 +151,8 @@ def main(tier):
         plan.append((racing_from(start, [dict(max_workers=2), dict(max_workers=2)]), 1, Ponly))
     plan += [(racing_from("healthy", [dict(max_workers=2, timeout=7), dict(max_workers=2)]), 1, Ponly),
              (racing_from("cold", [dict(max_workers=1), dict(max_workers=2)]), 1, Ponly),
+             (racing_from("healthy", [dict(max_workers=3), dict(max_workers=2, timeout=7)]), 1, Ponly),
+             (racing_from("healthy", [dict(max_workers=1), dict(max_workers=2, timeout=7)]), 1, Ponly),
              (racing_from("healthy", [dict(max_workers=2, timeout=7), dict(max_workers=1, timeout=7)]), 1, Ponly)]
     # the caller learns from a future that the pool broke and asks again at once
     plan += [(PG.crash_then_reuse(2, 3), 1, PT), (PG.crash_then_reuse(1, 2), 1, PT)]
